@@ -4,6 +4,12 @@ From SF Require Import Model.Bytes Model.ShapeType Model.Res Model.Prog.
 From SF Require Import Proofs.BytesLemmas.
 Open Scope Z_scope.
 
+Lemma s_rest_skipn s : s_rest s = skipn (Z.to_nat (s_pos s)) (s_data s).
+Proof.
+  unfold s_rest. destruct (Z.leb_spec (zlen (s_data s)) (s_pos s)) as [H|H]; [|reflexivity].
+  symmetry. apply skipn_all2. unfold zlen in H. lia.
+Qed.
+
 (** ** Interpreter and bind *)
 Lemma run_bind {A B} (p : prog A) (f : A -> prog B) s :
   run (bind p f) s =
@@ -80,7 +86,7 @@ Definition reads {A} (p : prog A) (bs : bytes) (a : A) : Prop :=
 Lemma rest_after s s' bs r :
   0 <= s_pos s -> s_data s' = s_data s -> s_pos s' = s_pos s + zlen bs -> s_rest s = bs ++ r -> s_rest s' = r.
 Proof.
-  unfold s_rest, zlen. intros Hp Hd Hs Hr. rewrite Hd, Hs.
+  rewrite !s_rest_skipn. unfold zlen. intros Hp Hd Hs Hr. rewrite Hd, Hs.
   rewrite Z2Nat.inj_add by lia. rewrite Nat2Z.id, <- skipn_skipn_, Hr.
   rewrite skipn_app, skipn_all, Nat.sub_diag. reflexivity.
 Qed.
@@ -213,7 +219,7 @@ Definition truncate (k : Z) (s : src) : src :=
 Lemma rest_truncate k s :
   0 <= s_pos s -> s_pos s <= k -> s_rest (truncate k s) = firstn (Z.to_nat (k - s_pos s)) (s_rest s).
 Proof.
-  intros H0 Hk. unfold s_rest, truncate; cbn [s_data s_pos].
+  intros H0 Hk. rewrite !s_rest_skipn. unfold truncate; cbn [s_data s_pos].
   rewrite skipn_firstn_comm. f_equal. lia.
 Qed.
 
